@@ -8,6 +8,7 @@ import (
 	"io"
 	"os"
 	"strconv"
+	"time"
 	"unicode"
 
 	"github.com/ProtonMail/go-crypto/openpgp"
@@ -89,11 +90,18 @@ func PGPClearSignWithKeyID(message io.Reader, keyFile, passphrase string, hexKey
 		return nil, fmt.Errorf("clear sign: %w", err)
 	}
 
+	// sign with the key the detached signers would use: the requested key id,
+	// or the entity's signing (sub)key when no id is given.
+	signingKey, ok := key.SigningKeyById(time.Now(), keyID)
+	if !ok || signingKey.PrivateKey == nil {
+		return nil, fmt.Errorf("clear sign: %w", errNoKeys)
+	}
+
 	var signature bytes.Buffer
 
 	writeCloser, err := clearsign.Encode(
 		&signature,
-		key.PrivateKey,
+		signingKey.PrivateKey,
 		&packet.Config{
 			SigningKeyId: keyID,
 			DefaultHash:  crypto.SHA256,
